@@ -142,8 +142,13 @@ func PickAddr(class, pos string, variant int, rng *rand.Rand) net.IP {
 	case "hi":
 		ip = mustIP(b.Hi)
 	default:
-		if variant < len(b.Mids) || !b.Rand {
+		// variant already carries the row's salt: the noteworthy inside addresses (among them every address just outside
+		// another block) are spread over the rows; blocks marked Rand mix them with seeded random inside addresses
+		k := variant % (len(b.Mids) + 2)
+		if !b.Rand {
 			ip = mustIP(b.Mids[variant%len(b.Mids)])
+		} else if k < len(b.Mids) {
+			ip = mustIP(b.Mids[k])
 		} else {
 			lo, hi := ipToBig(mustIP(b.Lo), b.V6), ipToBig(mustIP(b.Hi), b.V6)
 			// strictly between the edges, so that "mid" never coincides with "lo" / "hi"
@@ -251,4 +256,22 @@ func NameText(labels []string, variant int) string {
 		parts[len(labels)-1-i] = t
 	}
 	return strings.Join(parts, ".")
+}
+
+// Noteworthy lists the concrete addresses whose use is counted: both edges of every block and every listed inside
+// address of the classes that are not one block (where the addresses just outside the blocks live).
+func Noteworthy() map[string]string {
+	out := map[string]string{}
+	for c, b := range Blocks {
+		out[mustIP(b.Lo).String()] = c + "@lo"
+		out[mustIP(b.Hi).String()] = c + "@hi"
+		if !b.Rand {
+			for _, m := range b.Mids {
+				if _, ok := out[mustIP(m).String()]; !ok {
+					out[mustIP(m).String()] = c + "@in"
+				}
+			}
+		}
+	}
+	return out
 }
